@@ -45,6 +45,8 @@ var diagCoqNames = map[string]string{
 	"string": "TString", "type": "TType",
 }
 
+var sharedTokenQueue col.QueueLike[cdc.TokenLike]
+
 type obsTok struct {
 	typ       cdc.TokenType
 	val       string
@@ -67,7 +69,14 @@ func (t obsTok) coq() string {
 // scanAll runs the real scanner on src with a queue large enough for every token.
 func scanAll(src string) []obsTok {
 	n := len([]rune(src)) + 4
-	q := col.Queue[cdc.TokenLike](sharedNotation).MakeWithCapacity(uint(n))
+	// the same queue serves consecutive scans (it is empty again after each EOF) unless the text is too long for it
+	if sharedTokenQueue == nil {
+		sharedTokenQueue = col.Queue[cdc.TokenLike](sharedNotation).MakeWithCapacity(4096)
+	}
+	q := sharedTokenQueue
+	if n > 4096 {
+		q = col.Queue[cdc.TokenLike](sharedNotation).MakeWithCapacity(uint(n))
+	}
 	cdc.Scanner().Make(src, q)
 	var toks []obsTok
 	for {
@@ -150,8 +159,8 @@ func classifyParsePanic(e any) parseObs {
 	return parseObs{kind: "panic", code: 0, msg: first}
 }
 
-// observeParse calls ParseSource on the given notation under a watchdog.
-func observeParse(notation col.NotationLike, src string, watchdog time.Duration) parseObs {
+// observeParse calls ParseSource (of a notation or of one parser instance) under a watchdog.
+func observeParse(parse func(string) any, src string, watchdog time.Duration) parseObs {
 	ch := make(chan parseObs, 1)
 	go func() {
 		var o parseObs
@@ -161,7 +170,7 @@ func observeParse(notation col.NotationLike, src string, watchdog time.Duration)
 			}
 			ch <- o
 		}()
-		v := notation.ParseSource(src)
+		v := parse(src)
 		o = parseObs{kind: "value"}
 		func() {
 			defer func() {
@@ -243,7 +252,7 @@ func perturbHook(kind int, queue any) {
 }
 
 // parses src three more times on the same notation under different perturbations
-func perturbedRuns(notation col.NotationLike, src string, seed uint64, first string) (stable bool, note string) {
+func perturbedRuns(parse func(string) any, src string, seed uint64, first string) (stable bool, note string) {
 	stable = true
 	hookSeed = seed
 	for mode := 1; mode <= 3; mode++ {
@@ -253,7 +262,7 @@ func perturbedRuns(notation col.NotationLike, src string, seed uint64, first str
 			old = runtime.GOMAXPROCS(1)
 		}
 		col.VerifHook = perturbHook
-		o := observeParse(notation, src, 5*time.Second)
+		o := observeParse(parse, src, 5*time.Second)
 		col.VerifHook = nil
 		if mode == 2 {
 			runtime.GOMAXPROCS(old)
@@ -682,6 +691,10 @@ func nested(depth int, inner string, two bool) string {
 
 // ---------- the generator ----------
 
+// sentences of the grammar in the hand-written reuse sequence: they must be accepted
+var mustAccept = map[string]bool{"[ ](Array)": true, "[1, 2, 3](List)": true, "[\n    \"a\": 1\n](Catalog)\n": true, "[:](Map)": true,
+	"[\n    1\n    2\n](Set)\n": true, "[1](Queue)": true, "[1: 2](Catalog)": true, "[0x1](Stack)": true, "[[ ](List)](List)": true, "[true](Array)\n\n": true}
+
 type pCase struct {
 	src    string
 	kind   string
@@ -705,6 +718,13 @@ func genCdcnParse(prop string, seed uint64, tier, outDir string, count int) erro
 	// the texts
 	type text struct{ src, kind string }
 	var texts []text
+	// one parser instance, failing sources (diagnostics raised with 1, 2 and 3 tokens pushed back, an error
+	// token, a kind/context mismatch, an inexact literal) each followed by valid ones
+	for _, s := range []string{"[1, 2](Array) 3", "[ ](Array)", "[1, ](List)", "[1, 2, 3](List)", "[\"a\": 1](Array", "[\n    \"a\": 1\n](Catalog)\n",
+		"[\n    1\n    2](List)", "[ ](Array)", "[\n 1 2", "[:](Map)", "[\n \"k\" 5 [", "[\n    1\n    2\n](Set)\n", "[1, $](List)", "[1](Queue)", "[1, 2](Catalog)",
+		"[1: 2](Catalog)", "[99999999999999999999](List)", "[0x1](Stack)", "[", "[[ ](List)](List)", "[1](List)\n\n[", "[true](Array)\n\n"} {
+		texts = append(texts, text{s, "core-reuse"})
+	}
 	for _, s := range coreTexts {
 		texts = append(texts, text{s, "core"})
 	}
@@ -759,21 +779,51 @@ func genCdcnParse(prop string, seed uint64, tier, outDir string, count int) erro
 	var cases []pCase
 	hookCtr = 0
 	knownLeaked := 0
+	var parser cdc.ParserLike
+	groupLeft := 0
+	var groupHist []string
+	groupRng := newRng(seed ^ 0x5eed)
+	lastKind := ""
 	for i, t := range texts {
 		c := pCase{src: t.src, kind: t.kind}
 		c.toks = scanAll(t.src)
 		baseline := knownLeaked + leakedScanners(knownLeaked) // scanner goroutines left by earlier cases (none on the repaired tree)
-		notation := cdc.Notation().Make()
-		c.obs = observeParse(notation, t.src, 3*time.Second)
+		// One parser instance serves a whole group of consecutive texts (failing and valid ones
+		// mixed), so that state kept between calls on an instance (push-back stack, token queue,
+		// flags) shows up: every call must behave like the model of its text alone.
+		if t.kind == "core-reuse" {
+			// the hand-written reuse sequence always runs on ONE instance
+			if lastKind != "core-reuse" {
+				parser = nil
+			}
+			groupLeft = 1
+		}
+		lastKind = t.kind
+		if parser == nil || groupLeft == 0 {
+			parser = cdc.Parser().Make()
+			groupLeft = 1 + groupRng.intn(8)
+			groupHist = nil
+		}
+		groupLeft--
+		hist := strings.Join(groupHist, " ; ")
+		c.obs = observeParse(parser.ParseSource, t.src, 3*time.Second)
 		c.leak = leakedScanners(baseline) > 0
 		c.stable = true
 		if c.obs.kind != "hang" && len(c.toks) <= 600 && (prop == "C11" || i%3 == 0) {
-			c.stable, c.note = perturbedRuns(notation, t.src, seed+uint64(i), c.obs.coq())
+			c.stable, c.note = perturbedRuns(parser.ParseSource, t.src, seed+uint64(i), c.obs.coq())
 			if leakedScanners(baseline) > 0 {
 				c.leak = true
 			}
 		}
 		knownLeaked = baseline + leakedScanners(baseline)
+		if c.obs.kind == "hang" {
+			parser = nil // a goroutine may still be inside this instance
+		}
+		short := t.src
+		if len(short) > 40 {
+			short = short[:40] + "…"
+		}
+		groupHist = append(groupHist, fmt.Sprintf("%q→%s", short, c.obs.kind))
 		cases = append(cases, c)
 		meta.Steps += len(c.toks)
 		meta.OpHist[strings.SplitN(t.kind, "+", 2)[0]]++
@@ -802,7 +852,7 @@ func genCdcnParse(prop string, seed uint64, tier, outDir string, count int) erro
 			tl = append(tl, fmt.Sprintf("%s %q @%d:%d", strings.TrimPrefix(tokCoqNames[tk.typ], "T"), tk.val, tk.line, tk.pos))
 		}
 		meta.Traces = append(meta.Traces, []string{
-			fmt.Sprintf("source (%s): %q", t.kind, t.src),
+			fmt.Sprintf("source (%s; call %d on one parser instance, earlier calls on it: [%s]): %q", t.kind, len(groupHist), hist, t.src),
 			"observed tokens: " + strings.Join(tl, " | "),
 			"observed ParseSource outcome: " + c.obs.human(),
 			fmt.Sprintf("scanner goroutine left behind: %v", c.leak),
@@ -831,6 +881,9 @@ func genCdcnParse(prop string, seed uint64, tier, outDir string, count int) erro
 				bad = append(bad, "C12: ParseSource panicked with a text that is not a located syntax diagnostic: "+c.obs.msg)
 			}
 		}
+		if c.kind == "core-reuse" && mustAccept[c.src] && c.obs.kind != "value" {
+			bad = append(bad, "C11: a sentence of the grammar was rejected on a parser instance that had parsed other sources before: "+c.obs.human())
+		}
 		if c.leak {
 			bad = append(bad, "C12: a scanner goroutine (frame scanTokens) was still there after ParseSource had returned or panicked")
 		}
@@ -842,7 +895,7 @@ func genCdcnParse(prop string, seed uint64, tier, outDir string, count int) erro
 		}
 	}
 	// known finding C12-set-depth-limit: replay the exact input on every run
-	kobs := observeParse(cdc.Notation().Make(), knownText, 3*time.Second)
+	kobs := observeParse(cdc.Notation().Make().ParseSource, knownText, 3*time.Second)
 	kf := map[string]any{"id": "C12-set-depth-limit", "detail": kobs.human(), "input": "a (Set) literal with two members nested 17 (List) levels deep",
 		"other_cases_with_the_same_panic": depthPanics}
 	switch {
@@ -855,7 +908,7 @@ func genCdcnParse(prop string, seed uint64, tier, outDir string, count int) erro
 		predViol = append(predViol, map[string]any{"case": knownCase, "violated": []string{"C12: the known-finding input C12-set-depth-limit now ends in a third way: " + kobs.human()}})
 	}
 	meta.Cases = len(cases)
-	meta.Rule = "each case is one source text: hand-written corner texts, every prefix and an illegal character at every token boundary of one multi-line document, deep nests, then seeded random texts (derivations of Syntax.cdsn with every literal class and boundary literal, inline/multi-line/empty forms, all seven contexts; the same with inexact literals and value lists under Catalog/Map; one or two mutations of a derivation — prefix, delete/insert/substitute a rune, swap/delete/duplicate/replace a token, illegal character at a token boundary; arbitrary runes and bytes); a case counts as distinct and non-trivial when its text has at least 3 tokens and differs from every other text of the run"
+	meta.Rule = "each case is one source text, parsed on a parser instance (cdcn.Parser().Make()) that serves a random group of 1..8 consecutive texts, failing and valid ones mixed, and scanned into a token queue shared by consecutive scans: hand-written corner texts, every prefix and an illegal character at every token boundary of one multi-line document, deep nests, then seeded random texts (derivations of Syntax.cdsn with every literal class and boundary literal, inline/multi-line/empty forms, all seven contexts; the same with inexact literals and value lists under Catalog/Map; one or two mutations of a derivation — prefix, delete/insert/substitute a rune, swap/delete/duplicate/replace a token, illegal character at a token boundary; arbitrary runes and bytes); a case counts as distinct and non-trivial when its text has at least 3 tokens and differs from every other text of the run"
 	meta.Extra = map[string]any{"core_texts": ncore, "input_kinds": meta.OpHist, "tokens_by_type": meta.TypeHist,
 		"known_finding_observations": []map[string]any{kf}}
 	if len(predViol) > 0 {
